@@ -22,7 +22,11 @@ pub struct Finding {
 
 impl Finding {
     pub fn new(key: String, detail: String) -> Finding {
-        Finding { key, detail, step: None }
+        Finding {
+            key,
+            detail,
+            step: None,
+        }
     }
 }
 
@@ -68,10 +72,20 @@ impl TextInfo {
         .ok()
         .map(|(cst, sema, diags)| {
             let formatted = std::panic::catch_unwind(|| lelwel::backend::format::format(cst)).ok();
-            FrontEnd { cst, sema, diags, formatted }
+            FrontEnd {
+                cst,
+                sema,
+                diags,
+                formatted,
+            }
         });
         crate::exec::discard_panics();
-        TextInfo { text, id: text_id(text), lines: Lines::new(text), fe }
+        TextInfo {
+            text,
+            id: text_id(text),
+            lines: Lines::new(text),
+            fe,
+        }
     }
 
     fn range(&self, span: &Span) -> Option<Range> {
@@ -93,7 +107,11 @@ impl TextInfo {
                 });
             }
             let mut message = d.message.clone();
-            if let Some(l) = d.labels.iter().find(|l| l.style == LabelStyle::Primary && !l.message.is_empty()) {
+            if let Some(l) = d
+                .labels
+                .iter()
+                .find(|l| l.style == LabelStyle::Primary && !l.message.is_empty())
+            {
                 message.push(' ');
                 message.push_str(&l.message);
             }
@@ -176,8 +194,11 @@ fn fmt_set(set: Option<&BTreeSet<TokenName<'_>>>) -> String {
     match set {
         None => "{}".to_string(),
         Some(s) => {
-            let names: Vec<&str> =
-                s.iter().map(|t| t.0.as_ref()).filter(|n| *n == "EOF" || !n.starts_with("EOF")).collect();
+            let names: Vec<&str> = s
+                .iter()
+                .map(|t| t.0.as_ref())
+                .filter(|n| *n == "EOF" || !n.starts_with("EOF"))
+                .collect();
             format!("{{{}}}", names.join(", "))
         }
     }
@@ -275,8 +296,8 @@ pub fn check_diagnostics(ti: &TextInfo, uri: &Url, out: &Outcome) -> Vec<Finding
         None => f.push(Finding {
             key: format!("diag-span-unconvertible:{}", ti.id),
             detail: "a front-end diagnostic span is not on a character boundary of the text".into(),
- step: None,
-}),
+            step: None,
+        }),
         Some(exp) => {
             if !exp.is_empty() {
                 demanded(0);
@@ -289,8 +310,8 @@ pub fn check_diagnostics(ti: &TextInfo, uri: &Url, out: &Outcome) -> Vec<Finding
                         serde_json::to_string(got).unwrap(),
                         serde_json::to_string(&exp).unwrap()
                     ),
- step: None,
-});
+                    step: None,
+                });
             }
         }
     }
@@ -310,13 +331,17 @@ fn check_ranges(ti: &TextInfo, uri: &Url, parser_uri: &Url, kind: &str, out: &Ou
                     "range {}:{}-{}:{} is not inside the document",
                     r.start.line, r.start.character, r.end.line, r.end.character
                 ),
- step: None,
-});
+                step: None,
+            });
             break;
         }
     }
     if let Some(u) = foreign.first() {
-        f.push(Finding { key: format!("foreign-uri:{kind}:{}", ti.id), detail: format!("location in {u}"), step: None });
+        f.push(Finding {
+            key: format!("foreign-uri:{kind}:{}", ti.id),
+            detail: format!("location in {u}"),
+            step: None,
+        });
     }
 }
 
@@ -348,8 +373,8 @@ pub fn check_reply(cx: &Ctx<'_>, req: &Req, out: &Outcome) -> Vec<Finding> {
                         fe.formatted,
                         serde_json::to_string(edits).unwrap()
                     ),
- step: None,
-});
+                    step: None,
+                });
             }
         }
         (Req::Hover(l, c), Reply::Hover(h)) => {
@@ -368,13 +393,22 @@ pub fn check_reply(cx: &Ctx<'_>, req: &Req, out: &Outcome) -> Vec<Finding> {
                 fmt_set(fe.sema.follow_sets.get(&target)),
                 fmt_set(fe.sema.predict_sets.get(&target))
             );
-            if matches!(Regex::cast(cst, node), Some(Regex::Star(_) | Regex::Plus(_) | Regex::Optional(_))) {
-                block.push_str(&format!("\n\n**Recovery:** {}", fmt_set(fe.sema.recovery_sets.get(&target))));
+            if matches!(
+                Regex::cast(cst, node),
+                Some(Regex::Star(_) | Regex::Plus(_) | Regex::Optional(_))
+            ) {
+                block.push_str(&format!(
+                    "\n\n**Recovery:** {}",
+                    fmt_set(fe.sema.recovery_sets.get(&target))
+                ));
             }
             let exp_range = ti.range(&cst.span(node));
             demanded(1);
             let ok = match h {
-                Some(Hover { contents: HoverContents::Markup(m), range }) => {
+                Some(Hover {
+                    contents: HoverContents::Markup(m),
+                    range,
+                }) => {
                     m.kind == MarkupKind::Markdown
                         && m.value.ends_with(&block)
                         && !m.value[..m.value.len() - block.len()].contains("**First:**")
@@ -392,8 +426,8 @@ pub fn check_reply(cx: &Ctx<'_>, req: &Req, out: &Outcome) -> Vec<Finding> {
                         exp_range,
                         serde_json::to_string(h).unwrap()
                     ),
- step: None,
-});
+                    step: None,
+                });
             }
         }
         (Req::Definition(l, c), Reply::Definition(d)) => {
@@ -402,14 +436,19 @@ pub fn check_reply(cx: &Ctx<'_>, req: &Req, out: &Outcome) -> Vec<Finding> {
             let path = rule_path(cst, off);
             let decls = declarations(cst);
             let mut bad = |key: &str, detail: String| {
-                f.push(Finding { key: format!("{key}:{}", ti.id), detail: format!("definition at {}: {detail}", at(*l, *c)), step: None })
+                f.push(Finding {
+                    key: format!("{key}:{}", ti.id),
+                    detail: format!("definition at {}: {detail}", at(*l, *c)),
+                    step: None,
+                })
             };
             // a name or symbol used inside the body of a top-level rule, and declared in the text,
             // must resolve
             let in_body = path.len() >= 2
                 && RuleDecl::cast(cst, path[0]).is_some()
                 && path[1..].iter().all(|n| Regex::cast(cst, *n).is_some())
-                && (Name::cast(cst, *path.last().unwrap()).is_some() || Symbol::cast(cst, *path.last().unwrap()).is_some());
+                && (Name::cast(cst, *path.last().unwrap()).is_some()
+                    || Symbol::cast(cst, *path.last().unwrap()).is_some());
             let required = match (in_body, &tok) {
                 (true, Some((Token::Id | Token::Str, span))) => {
                     let name = &ti.text[span.clone()];
@@ -423,19 +462,37 @@ pub fn check_reply(cx: &Ctx<'_>, req: &Req, out: &Outcome) -> Vec<Finding> {
             match d {
                 None => {
                     if let Some(name) = required {
-                        bad("definition-missing", format!("`{name}` is declared in the text but no definition is returned"));
+                        bad(
+                            "definition-missing",
+                            format!("`{name}` is declared in the text but no definition is returned"),
+                        );
                     }
                 }
                 Some(GotoDefinitionResponse::Scalar(loc)) if loc.uri == *cx.uri => {
                     let Some((Token::Id | Token::Str, span)) = tok else {
-                        bad("defref-disagree", format!("a definition {:?} is returned for a position that is on no name", loc.range));
+                        bad(
+                            "defref-disagree",
+                            format!(
+                                "a definition {:?} is returned for a position that is on no name",
+                                loc.range
+                            ),
+                        );
                         return f;
                     };
                     let name = &ti.text[span.clone()];
-                    let candidates: Vec<Range> =
-                        decls.iter().filter(|(n, _)| n == name).filter_map(|(_, s)| ti.range(s)).collect();
+                    let candidates: Vec<Range> = decls
+                        .iter()
+                        .filter(|(n, _)| n == name)
+                        .filter_map(|(_, s)| ti.range(s))
+                        .collect();
                     if !candidates.contains(&loc.range) {
-                        bad("defref-disagree", format!("`{name}` resolves to {:?}, which is no declaration of that name ({candidates:?})", loc.range));
+                        bad(
+                            "defref-disagree",
+                            format!(
+                                "`{name}` resolves to {:?}, which is no declaration of that name ({candidates:?})",
+                                loc.range
+                            ),
+                        );
                         return f;
                     }
                     demanded(2);
@@ -443,13 +500,19 @@ pub fn check_reply(cx: &Ctx<'_>, req: &Req, out: &Outcome) -> Vec<Finding> {
                     let with = refs_of((cx.lookup)(&Req::References(ql, qc, true)));
                     let without = refs_of((cx.lookup)(&Req::References(ql, qc, false)));
                     let (Some(with), Some(without)) = (with, without) else {
-                        bad("defref-disagree", format!("references at the declaration {ql}:{qc} gave no answer"));
+                        bad(
+                            "defref-disagree",
+                            format!("references at the declaration {ql}:{qc} gave no answer"),
+                        );
                         return f;
                     };
                     let here = Location::new(cx.uri.clone(), ti.range(&span).unwrap());
                     let decl = Location::new(cx.uri.clone(), loc.range);
                     if !with.contains(&here) || !without.contains(&here) {
-                        bad("defref-disagree", format!("references({ql}:{qc}) does not list the use {:?}", here.range));
+                        bad(
+                            "defref-disagree",
+                            format!("references({ql}:{qc}) does not list the use {:?}", here.range),
+                        );
                     } else if multiset_minus(with, without) != Some(vec![decl]) {
                         bad("defref-disagree", format!("references({ql}:{qc}) with declaration is not references without it plus the declaration"));
                     }
@@ -459,24 +522,42 @@ pub fn check_reply(cx: &Ctx<'_>, req: &Req, out: &Outcome) -> Vec<Finding> {
                         Some((Token::Predicate, _)) => "predicate",
                         Some((Token::Action, _)) => "action",
                         _ => {
-                            bad("defref-disagree", "a parser.rs location is returned for something that is no predicate or action".into());
+                            bad(
+                                "defref-disagree",
+                                "a parser.rs location is returned for something that is no predicate or action".into(),
+                            );
                             return f;
                         }
                     };
                     let span = tok.unwrap().1;
                     let number = &ti.text[span.start + 1..span.end];
-                    let rule = path.first().and_then(|n| RuleDecl::cast(cst, *n)).and_then(|r| r.name(cst)).map(|x| x.0);
-                    let exp = rule.and_then(|r| cx.parser_rs.find(&format!("fn {kind}_{r}_{number}"))).and_then(|o| {
-                        let pl = Lines::new(cx.parser_rs);
-                        pl.position(cx.parser_rs, o)
-                    });
+                    let rule = path
+                        .first()
+                        .and_then(|n| RuleDecl::cast(cst, *n))
+                        .and_then(|r| r.name(cst))
+                        .map(|x| x.0);
+                    let exp = rule
+                        .and_then(|r| cx.parser_rs.find(&format!("fn {kind}_{r}_{number}")))
+                        .and_then(|o| {
+                            let pl = Lines::new(cx.parser_rs);
+                            pl.position(cx.parser_rs, o)
+                        });
                     demanded(3);
                     let got = (loc.range.start.line, loc.range.start.character);
                     if exp != Some(got) || loc.range.start != loc.range.end {
-                        bad("defref-disagree", format!("{kind} {number} of rule {rule:?} is at {exp:?} in parser.rs, got {:?}", loc.range));
+                        bad(
+                            "defref-disagree",
+                            format!(
+                                "{kind} {number} of rule {rule:?} is at {exp:?} in parser.rs, got {:?}",
+                                loc.range
+                            ),
+                        );
                     }
                 }
-                Some(other) => bad("defref-disagree", format!("unexpected definition shape {}", serde_json::to_string(other).unwrap())),
+                Some(other) => bad(
+                    "defref-disagree",
+                    format!("unexpected definition shape {}", serde_json::to_string(other).unwrap()),
+                ),
             }
         }
         (Req::References(l, c, true), Reply::References(Some(with))) => {
@@ -484,7 +565,11 @@ pub fn check_reply(cx: &Ctx<'_>, req: &Req, out: &Outcome) -> Vec<Finding> {
                 return f;
             }
             let mut bad = |detail: String| {
-                f.push(Finding { key: format!("defref-disagree:{}", ti.id), detail: format!("references at {}: {detail}", at(*l, *c)), step: None })
+                f.push(Finding {
+                    key: format!("defref-disagree:{}", ti.id),
+                    detail: format!("references at {}: {detail}", at(*l, *c)),
+                    step: None,
+                })
             };
             let Some(without) = refs_of((cx.lookup)(&Req::References(*l, *c, false))) else {
                 bad("no answer without declaration".into());
@@ -504,9 +589,17 @@ pub fn check_reply(cx: &Ctx<'_>, req: &Req, out: &Outcome) -> Vec<Finding> {
                 }
             };
             for r in without {
-                let d = def_of((cx.lookup)(&Req::Definition(r.range.start.line, r.range.start.character)));
+                let d = def_of((cx.lookup)(&Req::Definition(
+                    r.range.start.line,
+                    r.range.start.character,
+                )));
                 if d != Some(&decl) {
-                    bad(format!("lists {:?} whose definition is {:?}, not {:?}", r.range, d.map(|d| d.range), decl.range));
+                    bad(format!(
+                        "lists {:?} whose definition is {:?}, not {:?}",
+                        r.range,
+                        d.map(|d| d.range),
+                        decl.range
+                    ));
                     break;
                 }
             }
